@@ -59,7 +59,7 @@ fn sequence(mut idx: u64, l: u32) -> Vec<Behaviour> {
     out
 }
 
-const SPECIALS: u64 = 14;
+const SPECIALS: u64 = 16;
 
 pub fn plan(p: &EpParams) -> Plan {
     let l = max_len(p);
@@ -67,7 +67,7 @@ pub fn plan(p: &EpParams) -> Plan {
         episodes: n_sequences(l) * 2 + SPECIALS,
         exhaustive: true,
         rule: format!(
-            "fault sequences: every per-attempt endpoint behaviour sequence of length <= {} over {} behaviours (200 201 202 204 102 100 203 205 301 400 404 429 500 503 reset-after-request reset-on-accept answer-{}s-late) followed by 200, once with 1 message and once with 3 messages (sequence rotated per message), plus {} special episodes (closed port first, deletion while failing, always-late endpoint, five episodes in which a unary puller competes with the push rounds for the same subscription, two in which the endpoint never sends a final answer six times in a row, and two in which it accepts after 20-25 s, well inside the ack deadline). Push interval {} s, ack deadline {} s. Non-trivial: >=1 POST answered by each behaviour of the sequence. Distinct: the behaviour sequence x message count.",
+            "fault sequences: every per-attempt endpoint behaviour sequence of length <= {} over {} behaviours (200 201 202 204 102 100 203 205 301 400 404 429 500 503 reset-after-request reset-on-accept answer-{}s-late) followed by 200, once with 1 message and once with 3 messages (sequence rotated per message), plus {} special episodes (closed port first, deletion while failing, always-late endpoint, five episodes in which a unary puller competes with the push rounds for the same subscription, two in which the endpoint never sends a final answer six times in a row, two in which it accepts after 20-25 s, well inside the ack deadline, and two in which the answers of one round come back in another order than its POSTs went out). Push interval {} s, ack deadline {} s. Non-trivial: >=1 POST answered by each behaviour of the sequence. Distinct: the behaviour sequence x message count.",
             l, alphabet().len(), LATE_S, SPECIALS, INTERVAL_S, DEADLINE_S
         ),
     }
@@ -180,6 +180,12 @@ async fn episode(p: &EpParams) -> EpReport {
         if matches!(special, Some(12) | Some(13)) {
             e.set_script("p0", vec![Behaviour::Late(20, 200); 6]);
             e.set_script("p1", vec![Behaviour::Late(25, 204); 6]);
+        }
+        // specials 14/15: answers that come back in another order than the POSTs went out: the first
+        // message is accepted after 20 s, the second is refused at once (then accepted)
+        if matches!(special, Some(14) | Some(15)) {
+            e.set_script("p0", vec![Behaviour::Late(20, 200); 6]);
+            e.set_script("p1", vec![Behaviour::Status(500), Behaviour::Status(200)]);
         }
         // special 4: everything is late for ever (never accepted in time)
         if special == Some(4) {
